@@ -408,7 +408,7 @@ pub fn err_kind(e: &Error) -> String {
         Error::InvalidShapeType(c) => format!("InvalidShapeType({})", c),
         Error::InvalidPatchType(c) => format!("InvalidPatchType({})", c),
         Error::MismatchShapeType { requested, actual } => {
-            format!("MismatchShapeType(requested={},actual={})", requested, actual)
+            format!("MismatchShapeType(requested={},actual={})", *requested as i32, *actual as i32)
         }
         Error::InvalidShapeRecordSize => "InvalidShapeRecordSize".into(),
         Error::DbaseError(e) => format!("DbaseError({})", e),
